@@ -16,8 +16,8 @@ impl Check for C11 {
     }
     fn runs(&self, tier: Tier) -> u64 {
         match tier {
-            Tier::Quick => 12_000,
-            Tier::Thorough => 600_000,
+            Tier::Quick => 60_000,
+            Tier::Thorough => 2_500_000,
         }
     }
     fn run(&self, tape: &mut Tape, ctx: &RunCtx) -> RunOut {
@@ -33,6 +33,7 @@ impl Check for C11 {
             no_eviction: false,
             readonly_roots: 0,
             op_weights: OpWeights::default(),
+            final_prune: true,
         };
         let rep = run_history(tape, &hp, ctx.detail);
         let ev = rep.nontrivial_evictions;
